@@ -113,7 +113,7 @@ def gen_all(seed, tier, round_no=0):
             for e in ENTRIES:
                 a = rng.choice(ALGOS)
                 cs.append(all_lengths_case(rng, f"l{cid}", k, e, a, rng.choice(["e8", "e40"]))); cid += 1
-    n = 500 if tier == "quick" else 12000
+    n = 3000 if tier == "quick" else 30000
     for _ in range(n):
         cs.append(gen_case(rng, f"g{cid}")); cid += 1
     return cs
@@ -122,7 +122,7 @@ def gen_all(seed, tier, round_no=0):
 class C05(flow.Spec):
     pid = "C05"
     harness = dict(name="c05", sources=["c05.cpp"])
-    extra_lean_sources = ("TlxVerif/Model/C09LoserTree.lean", "TlxVerif/Proofs/C09Path.lean",
+    extra_lean_sources = ("TlxVerif/Model/C09LoserTree.lean", "TlxVerif/Model/C05Tables.lean", "TlxVerif/Proofs/C09Path.lean",
                           "TlxVerif/Proofs/C09Tournament.lean", "TlxVerif/Proofs/C09Orders.lean",
                           "TlxVerif/Proofs/C09Inv.lean", "TlxVerif/Proofs/C09Start.lean",
                           "TlxVerif/Props/C09.lean")
